@@ -12,7 +12,7 @@ oracle:  model-free — every printed to_json line must (a) parse with Python's 
 """
 import collections, json, os, re, struct, subprocess
 import vlib
-from props import c01, c17
+from props import c01, c17, lowertie
 
 
 def collect(ctx):
@@ -40,6 +40,8 @@ def collect(ctx):
             d["probe"] = (r[2], vlib.unesc(r[3]), r[4])
         elif k == "DERIVED":
             d["derived"] = r[2]
+        elif k == "HELPER":
+            d["helper"] = (vlib.unesc(r[2]), r[3], r[4], r[5], r[6])
         elif k == "CORPUS":
             d["corpus"] = vlib.unesc(r[3]) if r[2] == "out" and len(r) > 3 else None
         elif k == "EXPECTREJECT":
@@ -377,6 +379,74 @@ def run(ctx):
         else:
             n_probe_ok += 1
 
+    # ---- the lowering of the attributes themselves: Model/Lower.lean (lowerAttributes = the node's tokens without the comment
+    #      tokens) on the REAL tree of every probe and of every generated program that spells its attributes, against the real
+    #      ast::lower::lower (a second, token-level model of what Model/Derive.lean attrText says on characters)
+    ltexts = [(f"c18:{pid}", "c18-attribute-probes", d["src"]) for pid, d in probes.items() if d.get("src") and pid.endswith(":direct")]
+    ltexts += [(f"c18:{pid}", "c18-generated", d["src"]) for pid, d in gen.items() if d.get("src") and "(attrs (" in d["case"]]
+    lower_cov = lowertie.run(ctx, [], ltexts, tag="attribute_lowering") if ltexts else {}
+
+    # ---- hygiene against the package: a function of the package spelled like a helper the generated code calls
+    helpers = {k: d for k, d in progs.items() if "helper" in d}
+    hgc = c01.gocheck(ctx, [f"{pid}\t{d['stages']['go']}" for pid, d in helpers.items() if "go" in d["stages"]]) if helpers else {}
+    def top_of(h):
+        # the function the library package defines next to the derived type
+        return h[2] if h[3] in ("same-signature", "other-signature") else h[2] + "_of" if h[3] == "control-longer-name" else "-"
+    hres = run_model(ctx, [f"{pid}\t(hygiene {d['helper'][1]} {top_of(d['helper'])} {d['helper'][4]})" for pid, d in helpers.items()]) if helpers else {}
+    n_helper = n_helper_ok = n_helper_tie = 0
+    helper_hist = collections.Counter()
+    for pid, d in helpers.items():
+        want, method, helper, shape, _case = d["helper"]
+        n_helper += 1
+        payload = {"id": pid, "src": d.get("src"), "expected": want, "helper": helper, "shape": shape}
+        control = shape.startswith("control")
+        # the model: is a call of the generated body captured by a top-level function of that name?
+        m = hres.get(pid)
+        if not m or m[0] != "hygiene" or (m[1] == "hygienic") != control:
+            ctx.broken_ties.append(("Model/Derive.lean GMethod.hygienic ≠ the catalogue's reading (captured iff a package function is spelled like a called helper)", f"{pid}: {m}"))
+        else:
+            n_helper_tie += 1
+        sig = {"oracle": "helper-captured-by-package-function", "package": "library"}
+        if "panic" in d:
+            ctx.report({"oracle": "crash", "where": "helper-capture"}, f"the compiler panics on {pid}: {d['panic'][:160]}", payload)
+            continue
+        if "reject" in d:
+            stage, msg = d["reject"]
+            payload["diagnostics"] = msg[:400]
+            helper_hist[(shape, "rejected:" + stage)] += 1
+            if control:
+                ctx.report({"oracle": "accepted-definition-rejected", "stage": stage, "class": diag_class(msg)},
+                           f"a derived definition in a library package is rejected in `{stage}`: {msg[:200]}", payload)
+            else:
+                ctx.report(sig, f"{method} of a type in a library package that also defines `fn {helper}`: the generated code calls the package's function "
+                                f"instead of the runtime helper and fails in `{stage}`: {msg[:160]}", payload)
+            continue
+        go = d["out"].get("go")
+        if hgc.get(pid, ("ok",))[0] == "err":
+            payload["gocheck"] = hgc[pid][1][:300]
+            ctx.report({"oracle": "gocheck", "code": hgc[pid][1].split(" ")[0][:60]}, f"the Go emitted for {pid} is not valid Go: {hgc[pid][1][:200]}", payload)
+            continue
+        if go is None or go[0] != "ok":
+            ctx.report({"oracle": "run", "status": (go or ["?"])[0].split(":")[0]}, f"{pid} does not run to completion under Go.Sem: {go}", payload)
+            continue
+        got = vlib.unesc(go[1])
+        payload["stdout"] = got[:400]
+        good = got == want
+        if method == "to_json" and not good:
+            try:
+                good = got.endswith("\n") and same_value(py_json(got[:-1]), py_json(want[:-1]))
+            except (ValueError, BadConst, RecursionError):
+                good = False
+        helper_hist[(shape, "printed-as-required" if good else "printed-something-else")] += 1
+        if good:
+            n_helper_ok += 1
+        elif control:
+            ctx.report({"oracle": "library-package-derive", "kind": "output", "method": method},
+                       f"{method} of a type in a library package prints {got[:120]!r}, expected {want[:120]!r}", payload)
+        else:
+            ctx.report(sig, f"{method} of a type in a library package that also defines `fn {helper}`: the generated code calls the package's function "
+                            f"instead of the runtime helper and prints {got[:100]!r} instead of {want[:100]!r}", payload)
+
     # ---- witnesses of past failures and the corpus programs that use the derives
     n_corpus = n_corpus_ok = n_recorded = n_recorded_ok = 0
     for pid, d in progs.items():
@@ -460,7 +530,7 @@ def run(ctx):
             ctx.broken_ties.append(("replay file", str(e)))
     ctx.violations.sort(key=lambda v: len(v[2].get("src") or "x" * 10**6))
     cov = {
-        "evaluations": len(gen) + len(rej) + n_probe, "distinct_nontrivial": len(distinct) + n_rej_ok + n_probe_ok,
+        "evaluations": len(gen) + len(rej) + n_probe + n_helper, "distinct_nontrivial": len(distinct) + n_rej_ok + n_probe_ok + n_helper_ok,
         "rule": "one case = one generated program (1-4 derived struct/enum definitions, 1-4 values, printing every to_json then every "
                 "to_string); non-trivial = compiled and printed; distinct by stdout. Reject stream: one hand-listed definition per "
                 "unsupported field/payload kind x {ToJson, ToString}",
@@ -475,6 +545,10 @@ def run(ctx):
         "jsonRead_vs_python_json": {"lines": n_reader, "same_parse": n_reader_agree},
         "attribute_surface_probes": {"programs": n_probe, "as_required": n_probe_ok, "derive::expand_output_equals_model_selection": n_probe_tie,
                                      "by_expectation_and_outcome": {f"{k[0]}->{k[1]}": v for k, v in sorted(probe_hist.items())}},
+        "helper_hygiene_projects(library package)": {"projects": n_helper, "as_required": n_helper_ok, "model_hygienic_agrees": n_helper_tie,
+                                                     "by_shape_and_outcome": {f"{k[0]}->{k[1]}": v for k, v in sorted(helper_hist.items())}},
+        "attribute_lowering_tie(Model/Lower.lean vs ast::lower on the real trees)": {k: v for k, v in lower_cov.items() if k.split("attribute_lowering_")[-1] in
+                                                                                     ("texts", "model_equals_real", "streams")},
         "corpus_and_witness_programs": {"programs": n_corpus, "ok": n_corpus_ok, "with_output_recorded_from_real_Go": n_recorded,
                                         "recorded_output_reproduced": n_recorded_ok},
         "float_%g_cross_validation": {"floats": len(floats), "same_text": n_flt_ok,
